@@ -22,7 +22,7 @@ use vcore::{compile, Check, Found, Labels, Outcome, Project, RunCfg, Stats, Step
 pub struct C19;
 pub const CHECK: C19 = C19;
 pub fn plan(t: Tier) -> vcore::Plan {
-    vcore::Plan::new(t.pick(4_000, 80_000), 700)
+    vcore::Plan::new(t.pick(12_000, 600_000), 700)
 }
 
 pub const SIG_STR_TUPLE_ADD: &str = "C19/tuple-add/string-elements";
@@ -160,7 +160,7 @@ impl Case {
             }
         }
         for i in 0..n {
-            if matches!(tys[i], Ty::Tuple(_)) && ints_small(&ms[i]) && adm_div(&tys[i], &divisor_ty(&self.divisor)) {
+            if ints_small(&ms[i]) && adm_div(&tys[i], &divisor_ty(&self.divisor)) {
                 ops.push(Op { k: OpK::DivNum, i, j: 0 });
             }
             if tys[i].is_num() || (pr.neg_tuple && matches!(tys[i], Ty::Tuple(_)) && tys[i].all_num()) {
@@ -368,6 +368,16 @@ fn first_diff(a: &M, b: &M) -> Option<usize> {
     }
 }
 
+/// corresponding string leaves one of which is a proper prefix of the other
+fn prefix_pair(a: &M, b: &M) -> bool {
+    match (a, b) {
+        (M::S(x), M::S(y)) => x != y && (x.starts_with(y.as_str()) || y.starts_with(x.as_str())),
+        (M::T(x), M::T(y)) | (M::L(x), M::L(y)) | (M::Blob(x), M::Blob(y)) => x.iter().zip(y).any(|(p, q)| prefix_pair(p, q)),
+        (M::Var(i, Some(p)), M::Var(j, Some(q))) => i == j && prefix_pair(p, q),
+        _ => false,
+    }
+}
+
 fn scan(v: &Val, f: &mut dyn FnMut(&Val)) {
     f(v);
     match v {
@@ -476,9 +486,7 @@ impl Check for C19 {
                     if first_diff(&ms[i], &ms[j]).map(|k| k >= 1).unwrap_or(false) {
                         late = true;
                     }
-                    if let (M::S(x), M::S(y)) = (&ms[i], &ms[j]) {
-                        prefix_str |= x != y && (x.starts_with(y.as_str()) || y.starts_with(x.as_str()));
-                    }
+                    prefix_str |= prefix_pair(&ms[i], &ms[j]);
                 }
             }
         }
@@ -573,8 +581,10 @@ impl Check for C19 {
             }
         };
         let m = expected.len().min(got.lines.len());
+        // dev switch for sensitivity runs of the law oracle alone: booleans are not compared with the model
+        let laws_only = std::env::var("C19_LAWS_ONLY").is_ok();
         for p in 0..m {
-            if expected[p] != got.lines[p] {
+            if expected[p] != got.lines[p] && !(laws_only && ops[p].k.is_bool()) {
                 return Verdict::Violation {
                     signature: sig_for(&ops[p], "value"),
                     detail: format!(
@@ -766,6 +776,7 @@ impl Check for C19 {
             ("singleton-tuple-or-list", 0.03),
             ("equal-pair", 0.10),
             ("differ-late", 0.10),
+            ("string-prefix-pair", 0.02),
             ("op:eq", 0.5),
             ("op:lt", 0.3),
             ("op:le", 0.3),
